@@ -362,6 +362,11 @@ class Check:
         self.extra_cov = {}
         kf = VERIF / "KNOWN_FINDINGS.json"
         self.known = json.loads(kf.read_text()) if kf.exists() else {"open": [], "fixed": []}
+        # per-property fragments (same format), committed by hand like the main file
+        for frag in sorted((VERIF / "known_findings.d").glob("*.json")) if (VERIF / "known_findings.d").is_dir() else []:
+            d = json.loads(frag.read_text())
+            self.known.setdefault("open", []).extend(d.get("open", []))
+            self.known.setdefault("fixed", []).extend(d.get("fixed", []))
 
     # -- tiers
     @property
